@@ -172,6 +172,21 @@ pub fn header_values(full: bool) -> Vec<RHeader> {
     out
 }
 
+/// Headers with exactly one field populated, one per field (what an emptiness test could forget).
+pub fn single_field_headers() -> Vec<RHeader> {
+    let s = sig_reps();
+    vec![
+        RHeader { alg: Some(l_int(-7)), ..Default::default() },
+        RHeader { crit: vec![l_int(1)], ..Default::default() },
+        RHeader { content_type: Some(l_int(0)), ..Default::default() },
+        RHeader { key_id: b"k".to_vec(), ..Default::default() },
+        RHeader { iv: b"i".to_vec(), ..Default::default() },
+        RHeader { partial_iv: b"p".to_vec(), ..Default::default() },
+        RHeader { counter_signatures: vec![s[0].clone()], ..Default::default() },
+        RHeader { rest: vec![(l_int(99), NULL)], ..Default::default() },
+    ]
+}
+
 /// A handful of headers for use inside larger structures.
 pub fn header_reps() -> Vec<RHeader> {
     let s = sig_reps();
@@ -194,6 +209,9 @@ pub fn protected_reps() -> Vec<RProtected> {
         RProtected { original: Some(vec![0xa0]), header: RHeader::default() },
         RProtected { original: Some(vec![0xbf, 0xff]), header: RHeader::default() },
     ];
+    for h in single_field_headers() {
+        v.push(RProtected { original: None, header: h });
+    }
     for h in header_reps().into_iter().skip(1) {
         v.push(RProtected { original: None, header: h.clone() });
         let det = enc_header(&h).det();
@@ -217,8 +235,8 @@ pub fn recipient_reps() -> Vec<RRecipient> {
     let p = protected_reps();
     let h = header_reps();
     let r0 = RRecipient { protected: p[0].clone(), unprotected: h[0].clone(), ciphertext: None, recipients: vec![] };
-    let r1 = RRecipient { protected: p[4].clone(), unprotected: h[3].clone(), ciphertext: Some(b"ct".to_vec()), recipients: vec![] };
-    let r2 = RRecipient { protected: p[5].clone(), unprotected: h[1].clone(), ciphertext: Some(vec![]), recipients: vec![r0.clone(), r1.clone()] };
+    let r1 = RRecipient { protected: p[12].clone(), unprotected: h[3].clone(), ciphertext: Some(b"ct".to_vec()), recipients: vec![] };
+    let r2 = RRecipient { protected: p[13].clone(), unprotected: h[1].clone(), ciphertext: Some(vec![]), recipients: vec![r0.clone(), r1.clone()] };
     let r3 = RRecipient { protected: p[0].clone(), unprotected: h[4].clone(), ciphertext: None, recipients: vec![r2.clone()] };
     vec![r0, r1, r2, r3]
 }
